@@ -82,7 +82,9 @@ func (e *kvElection) heartbeatLoop(ctx context.Context) {
 			currentRev := e.revision.Load()
 			token := e.Token()
 			e.mu.RUnlock()
-			if !leading {
+			// (leading, but this loop's term is over: the instance leads a newer
+			// term, whose own loop refreshes its record)
+			if !leading || ctx.Err() != nil {
 				return
 			}
 
@@ -140,6 +142,15 @@ func (e *kvElection) heartbeatLoop(ctx context.Context) {
 			case result := <-resultChan:
 				newRev = result.rev
 				updateErr = result.err
+			}
+			// select picks at random when the answer and the end of the term are
+			// ready together, and this goroutine may have been held up since:
+			// once the term is over, its answer - success or failure - is
+			// nobody's business any more. The revision and the claim belong to
+			// whatever the instance is now (a follower, or the leader of a newer
+			// term).
+			if ctx.Err() != nil {
+				return
 			}
 
 			heartbeatStartTime := time.Now()
